@@ -183,7 +183,7 @@ class Gen:
         return [Op("w", lit32, self.rnd.choice([0, 1, 42, 0x80000000, 0xffffffff, 0x3f800000, self.rnd.randrange(1 << 32)]))]
 
     # ---- instruction level
-    def inst(self, entry, opt_count=None, many=None, types=None, nested_ok=True):
+    def inst(self, entry, opt_count=None, many=None, types=None, nested_ok=True, force_kind=None):
         """an instruction conforming to `entry`. opt_count: how many of the trailing optional operands are present
         (None = random); many: repetitions of a variadic operand; types: id -> ('int'|'float', width) for context
         dependent literals."""
@@ -222,9 +222,29 @@ class Gen:
                     ops += [Op("w", self.vix["IdRef"], self.some_id())]
                 elif k == "LiteralSpecConstantOpInteger":
                     ops += self.spec_op()
+                elif force_kind and k == force_kind[0]:
+                    ops += self.operand(k, force_value=force_kind[1])
                 else:
                     ops += self.operand(k)
         return Inst(self.opv[entry["name"]], entry["name"], rtype, rid, ops)
+
+    def parameterised(self):
+        """(kind, [values]) for every kind whose value decides further operands: every declared enumerant, or 0 / every
+        single bit / all bits of a mask"""
+        out = []
+        for kind, a in self.pk.items():
+            if a[0] in ("elems", "panic"):
+                continue
+            form, ty, _ = self.pfns[a[2]]
+            if form == "mask":
+                bits = sorted({v for _, v in self.masks[ty]["consts"] if v and v & (v - 1) == 0})
+                allb = 0
+                for b in bits:
+                    allb |= b
+                out.append((kind, [0] + bits + [allb]))
+            else:
+                out.append((kind, sorted({v for _, v in self.enums[ty]["decl"]})))
+        return out
 
     def nestable(self):
         """opcodes OpSpecConstantOp can embed: no context dependent operand kinds"""
